@@ -802,12 +802,24 @@ impl Scanner {
         loop {
             if requests >= bound {
                 self.rep.eval(class.clone());
+                let mut seen: HashSet<u64> = HashSet::new();
+                let dups: Vec<u64> =
+                    got.iter().map(|x| x.0).filter(|id| !seen.insert(*id)).collect();
                 self.rep.violate(
                     "C15:scan-not-finished-within-bound",
                     json!({"scenario": w, "requests_made": requests, "bound": bound,
                            "items_so_far": got.len(), "collection": total,
+                           "duplicates_so_far": dups.len(),
                            "page_sizes_tail": page_sizes.iter().rev().take(6).collect::<Vec<_>>()}),
                 );
+                if !dups.is_empty() {
+                    self.rep.violate(
+                        "C15:scan-is-not-the-collection:items-duplicated",
+                        json!({"scenario": w, "aborted_after_requests": requests,
+                               "duplicate_count": dups.len(),
+                               "duplicated_ids_head": dups.iter().take(5).collect::<Vec<_>>()}),
+                    );
+                }
                 return;
             }
             let page = match self.fetch(&target, fresh_conn_each_page, &w) {
